@@ -3,6 +3,7 @@ package props
 import (
 	"bytes"
 	"fmt"
+	"pgregory.net/rapid"
 	"sort"
 	"strings"
 	"testing"
@@ -137,8 +138,68 @@ func TestC10_RoundTrip(t *testing.T) {
 		caseC10RoundTrip)
 }
 
+// drawTraversalShapesSource writes references by hand in spellings the tree renderer does
+// not use: index keys as heredocs, keys and steps spread over lines with comments, legacy
+// indexes next to brackets, splats in the middle.
+func drawTraversalShapesSource(t *rapid.T) string {
+	roots := []string{"b", "var", "local.x", "data.a.b"}
+	steps := []string{".id", ".names", "[0]", "[ 1 ]", "[\"k\"]", "[ \"a b\" ]", "[<<EOT\nx\nEOT\n]", "[<<-KEY\n    k\n    KEY\n]", "[\n  0\n]", "[ /* c */ \"k\" ]", "[ # c\n \"k\"\n]",
+		".0", ".*", "[*]", "[true]", "[null]", "[other]", "[other.key]", "[\"${other}\"]", "[1 + idx]", ".*.id", "[*].id"}
+	var sb strings.Builder
+	n := rapid.IntRange(1, 3).Draw(t, "nattrs")
+	for i := 0; i < n; i++ {
+		ref := func() string {
+			r := rapid.SampledFrom(roots).Draw(t, "root")
+			legacy := false
+			for k := rapid.IntRange(1, 4).Draw(t, "nsteps"); k > 0; k-- {
+				st := rapid.SampledFrom(steps).Draw(t, "step")
+				if st == ".0" {
+					if legacy {
+						continue
+					}
+					legacy = true
+				} else {
+					legacy = false
+				}
+				r += st
+			}
+			return r
+		}
+		expr := ref()
+		switch rapid.IntRange(0, 4).Draw(t, "wrap") {
+		case 0:
+			expr = "[" + expr + ", " + ref() + "]"
+		case 1:
+			expr = "f(" + expr + ")"
+		case 2:
+			expr = expr + " + " + ref()
+		case 3:
+			expr = "\"pre ${" + expr + "} post\""
+		}
+		fmt.Fprintf(&sb, "%s = %s%s\n", string(rune('a'+i)), expr, rapid.SampledFrom([]string{"", " # trailing", " // c"}).Draw(t, "trail"))
+	}
+	if rapid.Bool().Draw(t, "in_block") {
+		return "blk {\n" + sb.String() + "}\n"
+	}
+	return sb.String()
+}
+
 func caseC10RoundTrip(c *hx.Case) {
 	t := c.T
+	if rapid.IntRange(0, 7).Draw(t, "traversal_shapes") == 0 {
+		src := drawTraversalShapesSource(t)
+		c.Set("source", src)
+		if _, diags := hclsyntax.ParseConfig([]byte(src), "t.hcl", hcl.InitialPos); diags.HasErrors() {
+			// (the hand-written family may compose an invalid spelling: not the subject)
+			c.Class("family_traversal_shapes_invalid")
+			c.Done(false, "")
+			return
+		}
+		c.Class("family_traversal_shapes")
+		checkWriterRoundTripRaw(c, []byte(src))
+		c.Done(true, src)
+		return
+	}
 	sc := gen.DrawScope(t, gen.ScopeOpts{Nulls: 12})
 	tree := drawConfig(t, sc, 2, gen.ExprOpts{IllTyped: 10, HostileLits: true, Budget: 14, MaxDepth: 3})
 	bo := drawBodyOpts(t)
